@@ -68,6 +68,25 @@ def random_swaps(rng, n: int) -> dict:
 GATES_1Q = ["H", "X", "Y", "Z", "S", "T", "SX"]
 
 
+def equivalent_variant(c, rng):
+    """The same circuit in another, equivalent presentation: itself, a copy, a frozen copy, or a copy that went
+    through one of the transformation-preserving rewrites. Every consumer must treat all of them alike."""
+    kind = str(rng.choice(["itself", "itself", "copy", "copy", "frozen_copy", "unpacked_copy", "compressed_copy",
+                           "adjacent_bs_copy", "copy_of_copy"]))
+    if kind == "itself":
+        return c, kind
+    v = c.copy(freeze_parameters=(kind == "frozen_copy"))
+    if kind == "unpacked_copy":
+        v.unpack_groups()
+    elif kind == "compressed_copy":
+        v.compress_mode_swaps()
+    elif kind == "adjacent_bs_copy":
+        v.remove_non_adjacent_bs()
+    elif kind == "copy_of_copy":
+        v = v.copy()
+    return v, kind
+
+
 class Builder:
     """Builds random circuits through the public API, logging the program."""
 
